@@ -1,6 +1,7 @@
 package props
 
 import (
+	"encoding/hex"
 	"fmt"
 
 	"verifharness/mon"
@@ -39,6 +40,45 @@ func c11(x *mon.Ctx) {
 			}
 		}
 	})
+	// signatures whose r or s is a small number (one or two leading zero bytes; probability 2^-8 / 2^-16 per signature, so
+	// they are ground out): the quote signature, the QE report signature and the two collateral signatures
+	{
+		zs := []int{1, 2}
+		if x.Quick() {
+			zs = []int{2}
+		}
+		n := 0
+		for _, site := range []string{"quote-signature", "qe-report-signature", "tcb-info-signature", "qe-identity-signature"} {
+			for _, which := range []string{"r", "s"} {
+				for _, z := range zs {
+					w := richHonest(x.Rand(fmt.Sprint("small-scalar", n)))
+					n++
+					zr, zsv := z, 0
+					if which == "s" {
+						zr, zsv = 0, z
+					}
+					switch site {
+					case "quote-signature":
+						w.Q.Sig = world.GrindSig(w.Att, append(append([]byte{}, w.Q.Header...), w.Q.Body...), zr, zsv)
+					case "qe-report-signature":
+						w.Q.QeSig = world.GrindSig(w.PKI.Leaf.Key, w.Q.QeReport, zr, zsv)
+					case "tcb-info-signature":
+						raw := w.Tcb.JSON()
+						w.TcbBody = world.BodyWithSig("tcbInfo", raw, hex.EncodeToString(world.GrindSig(w.PKI.TcbSign.Key, []byte(raw), zr, zsv)))
+					case "qe-identity-signature":
+						raw := w.Qe.JSON()
+						w.QeBody = world.BodyWithSig("enclaveIdentity", raw, hex.EncodeToString(world.GrindSig(w.PKI.TcbSign.Key, []byte(raw), zr, zsv)))
+					}
+					for _, l := range levels {
+						c := w.Case(l, "small-signature-scalar", fmt.Sprintf("%s/%s-with-%d-leading-zero-bytes", site, which, z))
+						c.Form, c.Expect = mon.Forms[(n+l)%4], "accept"
+						check(x, n, c)
+					}
+				}
+			}
+		}
+		x.Require("small-signature-scalar", 24, 0, 24)
+	}
 	// a few worlds once more with the library logging at verbosity 2
 	x.AtVerbosity(2, func() {
 		x.Each(x.Pick(12, 200), func(i int) {
